@@ -240,7 +240,9 @@ func executeCheck(c Case, bin, dir string, res *Result) {
 	}
 	res.InDomain = true
 	res.Nontrivial = len(ds) > 0
-	if strings.Contains(out.stderr, "panic:") || out.exit == 2 {
+	// a crash is recognised by the Go runtime's own report, not by a particular exit status
+	// (the property only distinguishes zero from non-zero)
+	if strings.Contains(out.stderr, "panic:") || strings.Contains(out.stderr, "goroutine 1 [") {
 		res.Violation = viol("check", "cli-dies-where-library-answers", fmt.Sprintf("exit %d, stderr %s", out.exit, core.Truncate(out.stderr, 400)))
 		return
 	}
@@ -574,6 +576,16 @@ func genCase(r *rand.Rand) Case {
 			for k := 1 + r.IntN(3); k > 0; k-- {
 				c.Text = gen.EditText(r, c.Text)
 			}
+		}
+		if r.IntN(12) == 0 {
+			// many diagnostics: counts around the boundaries at which an exit status,
+			// a byte or a small buffer wraps
+			n := core.Pick(r, []int{255, 256, 257, 512, 300})
+			var sb strings.Builder
+			for i := 0; i < n; i++ {
+				fmt.Fprintf(&sb, "set_tx_meta(\"k%d\", $undeclared_%d)\n", i, i%7)
+			}
+			c.Text = sb.String()
 		}
 		c.FileName = core.Pick(r, []string{"s.num", "with space.num", "dir.with.dots.num", "ünï.num", "100%.num", "a%sb%d.num", "invoice[1].num", "back\\slash.num", "star*.num", "q?.num", "a[.num", "{x,y}.num", "~tilde.num", "x-dash-.num"})
 		c.AbsPath = r.IntN(2) == 0
